@@ -480,26 +480,49 @@ func recycleRules(r *Report) {
 			continue
 		}
 		for _, s := range Sites(fn, func(in ssa.Instruction) bool {
-			c, ok := in.(*ssa.Call)
-			return ok && CalleeName(c) == "rueidis/internal/util.(*Pool).Put"
+			c, ok := in.(ssa.CallInstruction) // calls and deferred calls
+			if !ok {
+				return false
+			}
+			if _, isGo := in.(*ssa.Go); isGo {
+				return false
+			}
+			return CalleeName(c) == "rueidis/internal/util.(*Pool).Put"
 		}) {
 			buf := s.Call().Common().Args[1]
-			// was a []Completed field of buf passed to an interface DoMulti in this function?
-			var sent *ssa.Call
+			// was a []Completed slice of buf (the field itself or a slice grown from it) passed to a
+			// DoMulti - of a connection interface or of the pipe - in this function?
+			var sent ssa.CallInstruction
 			for _, cs := range Sites(fn, func(in ssa.Instruction) bool {
 				c, ok := in.(*ssa.Call)
-				return ok && c.Call.IsInvoke() && c.Call.Method.Name() == "DoMulti"
+				if !ok {
+					return false
+				}
+				if c.Call.IsInvoke() {
+					return c.Call.Method.Name() == "DoMulti"
+				}
+				return strings.HasSuffix(CalleeName(c), ").DoMulti")
 			}) {
 				c := cs.Instr.(*ssa.Call)
 				va := c.Call.Args[len(c.Call.Args)-1]
-				if _, _, base, ok := FieldRef(stripLoad(va)); ok && Same(base, buf) {
-					sent = c
+				if !strings.Contains(shortType(va.Type()), "Completed") {
+					continue
+				}
+				cands := append([]ssa.Value{va}, sliceOrigins(va)...)
+				for _, o := range cands {
+					if _, _, base, ok := FieldRef(stripLoad(o)); ok && Same(base, buf) {
+						sent = c
+					}
 				}
 			}
 			if sent == nil {
 				continue
 			}
 			nBuf++
+			if _, isDefer := s.Instr.(*ssa.Defer); isDefer {
+				r.ObSite("R33f", s, "sent-batch-buffer-recycled-only-when-clean", false, "the buffer whose command slice is handed to DoMulti is returned to its pool by a deferred call, i.e. on every path - also when the call was abandoned and the pipe still holds the slice")
+				continue
+			}
 			isClean := func(v ssa.Value) bool {
 				return DependsOn(v, func(x ssa.Value) bool {
 					c, ok := x.(*ssa.Call)
